@@ -16,7 +16,8 @@ from .storesim import MHist, gen_chain, replay_model
 PROPERTY = "C05"
 LEVEL = "exploration"
 RULE = (
-    "one case = one seeded run (format, pre-existing packs, 2-3 actor scripts over commit/pull/pack/read, schedule "
+    "one case = one seeded run (format, pre-existing packs, 2-3 actor scripts over commit/pull/pack/read and long-lived "
+    "write-locked sessions [pack(hint=stale names), scans, further commits/pulls through one repository object], schedule "
     "policy, optional crash of one actor); non-trivial = at least two actors saved pack-names and the scheduler "
     "switched between actors while one of them was inside a write group or pack operation; distinct = distinct "
     "event-log digests of such runs"
@@ -55,9 +56,12 @@ def generate(rng, tier):
     nact = rng.choice([2, 2, 3, 3])
     roles = []
     for i in range(nact):
-        roles.append(rng.choice(["commit", "commit", "pull", "pack", "read", "commit"]))
-    if "commit" not in roles and "pull" not in roles:
+        roles.append(rng.choice(["commit", "commit", "pull", "pack", "read", "commit", "holder"]))
+    if "commit" not in roles and "pull" not in roles and "holder" not in roles:
         roles[0] = "commit"
+    if "holder" in roles and not ({"commit", "pull"} & set(roles)):
+        # the long-lived object needs another writer to fall behind of
+        roles[(roles.index("holder") + 1) % nact] = "commit"
     actors = {}
     chains = {}
     for i, role in enumerate(roles):
@@ -72,6 +76,30 @@ def generate(rng, tier):
                 script.append(["commit", j])
                 if rng.random() < 0.15:
                     script.append(["pack", rng.random() < 0.5])
+        elif role == "holder":
+            # ONE long-lived repository object that stays write-locked over several operations:
+            # pack(hint=[names learnt earlier]) - a save with nothing to record once those packs
+            # have been combined away - scans (time for other writers), then further write groups
+            # (commit / pull) through the same object
+            if rng.random() < 0.5:
+                script.append(["pack", False])  # makes the names learnt at start stale for sure
+            steps = []
+            ncommit = 0
+            for _ in range(rng.randint(1, 2)):
+                if rng.random() < 0.6:
+                    steps.append(["scan", rng.randrange(1 << 20)])
+                steps.append(["pack_hint_stale"])
+                if rng.random() < 0.5:
+                    steps.append(["scan", rng.randrange(1 << 20)])
+                for _ in range(rng.randint(1, 2)):
+                    if rng.random() < 0.7:
+                        steps.append(["commit", ncommit])
+                        ncommit += 1
+                    else:
+                        steps.append(["pull", rng.randint(1, nsrc)])
+            base = f"p-{pre}" if (pre and rng.random() < 0.5) else None
+            chains[name] = {"base": base, "specs": gen_chain(rng, mh, base, ncommit, name.lower())}
+            script.append(["session", steps])
         elif role == "pull":
             cuts = sorted({rng.randint(1, nsrc) for _ in range(rng.randint(1, 3))})
             for c in cuts:
@@ -271,10 +299,30 @@ def execute(sim, plan):
             if prob:
                 sim.fail("reader", ["reader", "preempt", "listed-then-unreadable"], f"reader {name} after refresh: {prob}")
 
+    def do_commit(name, me, branch, chain, j):
+        spec = chain["specs"][j]
+        g.in_wg.add(name)
+        storesim.commit_specs(branch, [spec])
+        g.in_wg.discard(name)
+        if not me.dead:
+            g.acked.add(spec["id"])
+            sim.event(name, "acked", spec["id"])
+
+    def do_pull(name, me, branch, cut):
+        upto = plan["src"][cut - 1]["id"]
+        g.in_wg.add(name)
+        branch.pull(storesim.open_branch(url_s + "s"), stop_revision=upto.encode())
+        g.in_wg.discard(name)
+        if not me.dead:
+            g.acked.update(s["id"] for s in plan["src"][:cut])
+            sim.event(name, "acked-upto", upto)
+
     def run_script(name, script):
         me = sim.actors[name]
         branch = storesim.open_branch(url + "b" + name)
         chain = plan["chains"].get(name)
+        # pack names this process learnt when it started (the hint of a later pack request)
+        learnt = sorted(g.disk_names())[:2] or ["0" * 32]
         for op in script:
             if me.dead:
                 return
@@ -302,6 +350,39 @@ def execute(sim, plan):
                         repo.pack(clean_obsolete_packs=op[1])
                 elif kind == "read":
                     read_some(name, storesim.open_repo(url), op[1])
+                elif kind == "session":
+                    # the actor's ONE repository object stays write-locked (pack repositories take no
+                    # physical repository lock, other writers go on) across all steps
+                    repo = branch.repository
+                    with repo.lock_write():
+                        sim.probe("long_lived_session")
+                        for step in op[1]:
+                            if me.dead:
+                                return
+                            if step[0] == "pack_hint_stale":
+                                sim.event(name, "pack-hint", ",".join(learnt))
+                                repo.pack(hint=list(learnt))
+                            elif step[0] == "scan":
+                                # passes time inside the session (other writers get scheduled); what a
+                                # write-locked object with an old view can read is not judged here
+                                rng = random.Random(step[1])
+                                listed = sorted(repo.all_revision_ids())
+                                if storesim.readable(repo, mh, rng.sample(listed, min(len(listed), 2))):
+                                    sim.probe("session_scan_saw_stale_view")
+                            elif step[0] == "commit":
+                                if step[1] < len(chain["specs"]):
+                                    do_commit(name, me, branch, chain, step[1])
+                            elif step[0] == "pull":
+                                # a fetch into the repository through the same object (the branch tip stays:
+                                # the session's commits and the fetched line are unrelated)
+                                cut = min(step[1], len(plan["src"]))
+                                upto = plan["src"][cut - 1]["id"]
+                                g.in_wg.add(name)
+                                repo.fetch(storesim.open_repo(url_s + "s"), revision_id=upto.encode())
+                                g.in_wg.discard(name)
+                                if not me.dead:
+                                    g.acked.update(x["id"] for x in plan["src"][:cut])
+                                    sim.event(name, "acked-upto", upto)
             except SimCrash:
                 return
             except errors.LockContention:
